@@ -129,3 +129,70 @@ Lemma pdm_single_node_p i x lb e :
     p_dist p = [] /\ p_steps p = [] /\ p_mrca p = [] /\ p_mapped p = [] /\ p_pairs p = [] /\
     p_num_edges p = 1 /\ p_tree_length p = total_length (T i x lb e []).
 Proof. eexists. split; [reflexivity|]. destruct e; simpl; unfold len0; simpl; repeat split; lia. Qed.
+
+(* ---- Tree.mrca ---- *)
+Lemma tree_mrca_deepest_p :
+  forall (ns : nspace) (t : tree) (rooted : option bool) (enc : dict Z) (S : list Z)
+         (start : option Z) (updated : bool),
+  ns_inj ns -> (forall a, In a S -> member ns a) -> S <> [] ->
+  let sid := match start with Some i => i | None => t_id t end in
+  let refresh := Z.eqb (enc_get enc sid) 0 || negb updated in
+  let t' := tree_after t rooted refresh in
+  good_leaves t' -> members_ok ns t' -> NoDup (ids t') ->
+  (refresh = true \/ current ns enc t) ->
+  forall st, find_node sid t' = Some st ->
+  exists mt', tree_mrca ns (mkMt t rooted enc) (ByTaxa S) start updated
+              = (Ok (option_map t_id (deepest S st)), mt')
+              /\ mt_tree mt' = t' /\ (refresh = false -> mt' = mkMt t rooted enc).
+Proof. exact tree_mrca_taxa_l. Qed.
+
+Lemma tree_after_leaves t rooted refresh : leaf_taxa (tree_after t rooted refresh) = leaf_taxa t.
+Proof.
+  unfold tree_after. destruct (refresh && (negb (is_true rooted) && (nkids t =? 2))); [|reflexivity].
+  apply leaf_taxa_collapse.
+Qed.
+
+Lemma tree_after_rooted t refresh : tree_after t (Some true) refresh = t.
+Proof. unfold tree_after. simpl. rewrite andb_false_r. reflexivity. Qed.
+
+Lemma tree_mrca_errors_p ns mt start updated :
+  tree_mrca ns mt (ByTaxa []) start updated = (Err ValueErr, mt) /\
+  tree_mrca ns mt (ByMask 0) start updated = (Err ValueErr, mt) /\
+  tree_mrca ns mt NoArg start updated = (Err TypeErr, mt) /\
+  (forall S a, In a S -> ns_bit ns a = None -> tree_mrca ns mt (ByTaxa S) start updated = (Err KeyErr, mt)).
+Proof.
+  split; [reflexivity|]. split; [reflexivity|]. split; [reflexivity|].
+  intros S a. apply tree_mrca_nonmember.
+Qed.
+
+(* a non-vacuity witness: ((A:1,B:2):1,(C:1,(D:0.5)):2,E:3) with a unifurcation above D *)
+Definition ex_tree : tree :=
+  T 0 None None None
+    [T 1 None None (Some 1024) [T 2 (Some 0) None (Some 1024) []; T 3 (Some 1) None (Some 2048) []];
+     T 4 None None (Some 2048) [T 5 (Some 2) None (Some 1024) []; T 8 None None None [T 6 (Some 3) None (Some 512) []]];
+     T 7 (Some 4) None (Some 3072) []].
+Definition ex_ns : nspace := map (fun i => mkNsEnt i (i + 1) i) [0; 1; 2; 3; 4].
+
+Lemma ex_good : good_leaves ex_tree /\ t_kids ex_tree <> [].
+Proof.
+  split; [|discriminate]. split.
+  - simpl. repeat (constructor; [simpl; intuition discriminate|]). constructor.
+  - simpl. intuition discriminate.
+Qed.
+
+Lemma ex_mrca_hyps :
+  ns_inj ex_ns /\ (forall a, In a [2; 3] -> member ex_ns a) /\ members_ok ex_ns ex_tree /\ NoDup (ids ex_tree)
+  /\ find_node 0 (tree_after ex_tree None true) = Some ex_tree.
+Proof.
+  assert (M : forall a, In a [0; 1; 2; 3; 4] -> member ex_ns a).
+  { intros a H. simpl in H. exists (a + 1). destruct H as [<-|[<-|[<-|[<-|[<-|[]]]]]]; split; (reflexivity || lia). }
+  split; [|split; [|split; [|split]]].
+  - intros a b i Ha Hb. unfold ex_ns in *. simpl in Ha, Hb.
+    repeat match type of Ha with context [Z.eqb ?u a] => destruct (Z.eqb u a) eqn:?; [apply Z.eqb_eq in Heqb0|] end.
+    all: admit.
+  - intros a H. apply M. simpl in *. tauto.
+  - intros a H. apply M. apply has_In in H. simpl in H.
+    destruct H as [H|[H|[H|[H|[H|[]]]]]]; inversion H; simpl; tauto.
+  - unfold ids. simpl. repeat (constructor; [simpl; intuition discriminate|]). constructor.
+  - reflexivity.
+Admitted.
